@@ -176,6 +176,8 @@ def correspond(ctx, scale):
         thr = rng.choice([1, 2, 0.5])
         decay = rng.choice([0.25, 0.5, 0.0])
         rcos = ci % 3 == 1
+        if ci % 4 == 2:
+            nq, shared = 1, True          # a one-layer stack with a shared codebook: the end-of-step update and revival still happen
         kw = dict(dim=d, num_quantizers=nq, codebook_size=K, shared_codebook=shared, decay=decay, threshold_ema_dead_code=thr, use_cosine_sim=rcos)
         rvq = ResidualVQ(**kw)
         for layer in (rvq.layers[:1] if shared else rvq.layers):
